@@ -77,6 +77,11 @@ class ImmutableKnotVector(tuple):
         return instance
 
     def __add__(self, nodes: Tuple[float]) -> ImmutableKnotVector:
+        nodes = tuple(nodes)
+        umin, umax = self.limits
+        for node in nodes:
+            if node < umin or umax < node:
+                raise ValueError(f"Cannot insert node {node} outside {self.limits}")
         return self.__class__(sorted(list(self) + list(nodes)))
 
     def __sub__(self, nodes: Tuple[float]) -> ImmutableKnotVector:
